@@ -5,6 +5,8 @@ pub mod c02_net;
 pub mod c07;
 pub mod c08;
 pub mod c08_net;
+pub mod c09;
+pub mod c09_net;
 pub mod routerkit;
 pub mod c11;
 pub mod c12;
@@ -74,6 +76,19 @@ pub fn all() -> Vec<PropDef> {
             ],
             run: c08::run,
             replay: c08::replay,
+            child: None,
+        },
+        PropDef {
+            id: "C09",
+            level: "exploration",
+            rule: c09::RULE,
+            assumptions: &[
+                "chunk_bytes >= 1 (0 is outside the quantifier: it would spin)",
+                "chunk sizing itself is local engine policy and is not asserted; only the concatenation, the single final end marker and the error behaviour are",
+                "for the value producer equality is judged by decoding (the streaming serializer's byte layout is not pinned)",
+            ],
+            run: c09::run,
+            replay: c09::replay,
             child: None,
         },
         PropDef {
